@@ -60,7 +60,7 @@ ShortViol(r) ==
           \cup {<<"C03", "flag" \o ToString(j)>> : j \in {x \in 1..12 : flags[x] # 1}}
           \* C03: the ONLY permitted difference in the byte getters is information-free parts set to zero
           \cup (IF Sub(vecS, 15, 3) = Mask(s, d1, d2) /\ Sub(vecS, 18, 3) = Mask(s, d1, d2) THEN {}
-                ELSE {<<"C03", "structured-bytes-differ-in-more-than-information-free-parts">>})
+                ELSE {<<"C03", "structured-bytes-not-masked-raw-bytes">>})
           \* C03, stated directly: structured answers = raw answers except the byte getters
           \cup (IF \A j \in (1..14) \cup (21..26) : vecS[j] = vecR[j] THEN {}
                 ELSE {<<"C03", "structured-vs-raw-" \o accName(CHOOSE j \in (1..14) \cup (21..26) : vecS[j] # vecR[j])>>})
